@@ -576,7 +576,7 @@ func genQuery(r *vh.Rand, pts []point, dups, flushed bool) *queryJ {
 		// order by a selected plain field of an order-insensitive type, keep the best 1-3 groups
 		for i, it := range q.Items {
 			if it.Func == 0 && it.Field <= 2 {
-				// descending only: a group without data in the range ranks 0 and would win an ascending order
+				// descending here; half of the statements whose range covers everything written are turned to ascending below
 				q.Order = &orderJ{Item: i, Desc: true, Limit: r.Range(1, 3)}
 				break
 			}
@@ -610,9 +610,16 @@ func genQuery(r *vh.Rand, pts []point, dups, flushed bool) *queryJ {
 			q.Hi = maxSlot + 6
 		}
 	}
+	if q.Order != nil && q.Lo == 0 && q.Hi > maxSlot && ascendingOrder && r.Bool() {
+		// ascending when the range covers everything written (a group without the order field ranks 0 and comes first)
+		q.Order.Desc = false
+	}
 	q.render()
 	return q
 }
+
+// ascendingOrder: order by ... asc limit n is generated when the range covers every written slot.
+var ascendingOrder = true
 
 func genLayout(r *vh.Rand) layoutJ {
 	lay := layoutJ{NumShards: []int{1, 2, 3, 4, 5, 8}[r.Intn(6)]}
@@ -951,6 +958,6 @@ func MainC12() {
 	out.Notes = append(out.Notes,
 		"one engine per layout; every storage node owns a database of its own (metadata, index, shards) inside it and is shown to its leaf processor under the logical database name",
 		"real code on the path: broker shard iterator (routing), DataFamily.WriteRows, query.MetricDataSearch with RootMetricContext, physical plan and task-send stages, intermediate and leaf task processors, task managers, the leaf pipeline (metadata lookup, tag filtering, grouping, data load, down-sampling, reduce), TimeSeriesList encoding, root merge and expression evaluation; replaced: the gRPC streams (requests are handed to the processors, responses are collected and handed to the receiver's task manager in a picked order) and the state manager's Choose / GetDatabaseCfg",
-		"statements without order-by carry limit 100 (the default of 20 groups picks groups in map order); order by <selected sum/min/max field> desc limit 1-3 (ascending is left out: groups without data in the range rank 0 and win) is generated for a fifth of the group-by statements and skipped by the check when two groups have equal ranks")
+		"statements without order-by carry limit 100 (the default of 20 groups picks groups in map order); order by <selected sum/min/max field> [desc] limit 1-3 (ascending only when the range covers every written slot) is generated for a fifth of the group-by statements and skipped by the check when two groups have equal ranks")
 	out.Finish()
 }
